@@ -112,3 +112,11 @@ SKELS_ALL.update(SKELS_NATIVE)
 # two flags and two value options with short names: grouped short spellings (C01)
 S13 = Skel("S13", [Opt("verbose", "v", "flag"), Opt("quiet", "q", "flag"), Opt("num", "n", "req", "int"), Opt("tag", "t", "opt", "str", default="dflt")], [Arg("a", "opt")])
 SKELS_ALL["S13"] = S13
+
+# two formats derived from ONE base format object; the sibling is used first (C02: surplus positionals must still be rejected)
+BASE14 = Skel("B14", [Opt("verbose", "v", "flag")], [Arg("first", "req")])
+S14A = Skel("S14A", [], [Arg("second", "opt"), Arg("third", "opt")], base=BASE14)
+S14B = Skel("S14B", [Opt("flag", "f", "flag")], [], base=BASE14, warm=[(S14A, ["x", "y", "z"])])
+SKELS_ALL["S14B"] = S14B
+SKELS_ALL["B14"] = BASE14
+BASE14.warm = [(S14A, ["x", "y", "z"])]
